@@ -511,6 +511,28 @@ def sc_linear_env(M, n, size, computer="superadditive_cached", gap="exploitabili
 
 
 @scenario
+def sc_linear_two_steps(M, n, sizes, computer="superadditive_cached", gap="exploitability"):
+    """reset, then consecutive step(size) calls WITHOUT asking for the mask in between (hidden game symbolic, every
+    tie-break explored): each step reveals exactly one coalition of its size that was unknown before it."""
+    lin_m = M.mod("icg_gym_linear")
+    env, gen = make_env(M, n, computer, gap)
+    lin = lin_m.ICG_Gym_Linear(env)
+    lin.reset()
+    v = gen.calls[-1]
+    expl = [c.id for c in env.explorable_coalitions]
+    known = set(minimal(n))
+    for t, size in enumerate(sizes):
+        res = lin.step(size)
+        revealed = int(res[4]["chosen_coalition"])
+        M.check(f"step{t}.reveals_coalition_of_that_size", revealed in expl and popcount(revealed) == size)
+        M.check(f"step{t}.was_unknown", revealed not in known)
+        known.add(revealed)
+        kn, lo, up = view(M, env, n)
+        for c in range(1 << n):
+            M.check(f"step{t}.knowledge[{c}]", M.iff(kn[c], c in known))
+
+
+@scenario
 def sc_linear_reset(M, n, computer="superadditive_cached", gap="exploitability"):
     lin_m = M.mod("icg_gym_linear")
     init_ids = minimal(n)
